@@ -1,5 +1,5 @@
 (* Properties_C03.v — C03: launch fidelity.  Theorems only. *)
-From Verif Require Import Lib WorldSpec LibSpec LibSpec2 ProofsMisc.
+From Verif Require Import Lib WorldSpec WorldSpec2 LibSpec LibSpec2 ProofsMisc ChildSpec.
 From Coq Require Import Lia.
 Local Open Scope Z_scope.
 
@@ -29,6 +29,27 @@ Print Assumptions C03_prepend_in_bounds.
 Theorem C03_prepend_terminates : forall L, 0 <= L -> L + 1 <= cwd_bufsz (L / CWD_BUF_SIZE_INCREMENT).
 Proof. exact prepend_fuel_enough. Qed.
 Print Assumptions C03_prepend_terminates.
+
+(* THE CHILD SIDE: chdir, environ swap and exec happen in the forked child in that order, and the
+   program's image carries exactly the argv passed (any byte strings), exactly the environment
+   list handed to the child (which C03_env_order shows is parent ++ extra, or extra), and the
+   requested working directory resolved against the cwd at fork (the parent's) — or that cwd
+   when none is requested.  For every inherited state and every fault-free world. *)
+Theorem C03_child_image : forall M D C E fprd fpwr sprd spwr av pg env o (k : MW unit) w,
+  stg M D C E w ->
+  match fork_child_part fprd fpwr [po_in o; po_out o; po_err o; sprd; spwr; po_exit o]
+                        (start_child_part sprd spwr (Some av) pg env o k) w with
+  | Ret _ _ => False
+  | Stop w' => forall im, pr_image (curp w') = Some im ->
+                 im_mask im = [] /\
+                 (forall s x, 1 <= s <= 31 -> s <> SIGKILL -> s <> SIGSTOP -> ~ In (s, x) (im_disp im)) /\
+                 im_argv im = av /\
+                 im_env im = (match env with Some (_, ss) => map snd ss | None => [] end) /\
+                 im_cwd im = (match po_wd o with Some d => abs_path C d | None => C end)
+  | Hang _ | Crash _ _ => True
+  end.
+Proof. exact child_image_signals_and_launch. Qed.
+Print Assumptions C03_child_image.
 
 Example C03_ex : path_is_relative [98; 105; 110; 47; 99] = true /\ path_is_relative [47; 98] = false /\ path_is_relative [99] = false.
 Proof. vm_compute. auto. Qed.
